@@ -165,12 +165,19 @@ def gen(ctx, tier, rng):
             L.append("generichash %d %s N N %s" % (ol, hexs(rb(rng, kl)), hexs(rb(rng, rng.choice([0, 1, 127, 128, 129, 256, 257])))))
     for ol in (0, 65, 66, 100):
         L.append("generichash %d - N N 616263" % ol)
+    # out-of-range lengths of ANY size are refused by every BLAKE2b entry point (the internal interfaces take 8-bit lengths: 256 + k must not alias k)
+    for ol in [0, 1, 16, 64, 65, 66, 127, 128, 255, 256, 257, 272, 288, 320, 321, 512, 576, 1056, 65535, 65536, 65537, 65568, 65600, (1 << 24) - 1, (1 << 24)] + [256 * rng.randrange(1, 1000) + rng.randrange(0, 80) for _ in range(20)]:
+        for kl in (0, 32):
+            L.append("generichash.lens %d %d" % (ol, kl))
+    for kl in [0, 1, 64, 65, 128, 255, 256, 257, 288, 320, 321, 512, 65536, 65568, 65601] + [256 * rng.randrange(1, 1000) + rng.randrange(0, 80) for _ in range(20)]:
+        for ol in (32, 64):
+            L.append("generichash.lens %d %d" % (ol, kl))
     # HKDF expand: every output length around block multiples, the limit, contexts
     for ol in sorted(set(list(range(0, 140)) + [255 * 32 - 1, 255 * 32, 255 * 32 + 1, 8000, 255 * 64])):
         L.append("kdf.hkdf256.expand %d %s %s" % (ol, hexs(rb(rng, rng.choice([0, 5, 40]))), hexs(rb(rng, 32))))
     for ol in sorted(set(list(range(0, 200, 3)) + [63, 64, 65, 127, 128, 129, 255 * 64 - 1, 255 * 64, 255 * 64 + 1])):
         L.append("kdf.hkdf512.expand %d %s %s" % (ol, hexs(rb(rng, rng.choice([0, 5, 40]))), hexs(rb(rng, 64))))
-    for n in range(0, 80):
+    for n in list(range(0, 80)) + [255, 256, 257, 272, 288, 320, 321, 512 + 32, 65536 + 32, 65536 + 64, (1 << 17)]:
         L.append("kdf.blake2b %d %d %s %s" % (n, rng.choice([0, 1, rng.getrandbits(64), (1 << 64) - 1]), hexs(rb(rng, 8)), K32()))
     # Poly1305 adversarial
     for key, msg in poly_adversarial(rng):
